@@ -606,6 +606,10 @@ pub fn cmd(sub: &str, args: &[String], w: &mut dyn Write) -> bool {
             }
             true
         }
+        "ffi-timed" => {
+            timed(w);
+            true
+        }
         "ffi-replay" => {
             let mut text = String::new();
             let _ = std::io::Read::read_to_string(&mut std::io::stdin(), &mut text);
@@ -615,5 +619,101 @@ pub fn cmd(sub: &str, args: &[String], w: &mut dyn Write) -> bool {
             true
         }
         _ => false,
+    }
+}
+
+/* ---------- wall-clock differential (ffi-timed) ----------
+   The C API stamps every batch with `Instant::now()`.  The byte-level model cannot see that clock, so the
+   time-dependent half of "exactly the actions the Rust framework returns" is checked here directly: the API
+   and a `Framework<_, std::time::Instant>` are driven in lockstep (same machines, each reference call made
+   right after the API call) through scenarios whose blocking-budget decisions depend on how much real time
+   has passed, with margins of a factor two or more so that scheduling noise cannot flip them.  A scenario
+   that disagrees is repeated; only a disagreement in every repetition is reported. */
+
+fn timed_machine(mfrac: f64) -> Machine {
+    use enum_map::enum_map;
+    use maybenot::action::Action;
+    use maybenot::dist::{Dist, DistType};
+    use maybenot::event::Event;
+    use maybenot::state::{State, Trans};
+    let konst = |v: f64| Dist { dist: DistType::Uniform { low: v, high: v }, start: 0.0, max: 0.0 };
+    let s0 = State::new(enum_map! { Event::NormalSent => vec![Trans(1, 1.0)], _ => vec![] });
+    let mut s1 = State::new(enum_map! { Event::NormalSent => vec![Trans(1, 1.0)], Event::NormalRecv => vec![Trans(0, 1.0)], _ => vec![] });
+    s1.action = Some(Action::BlockOutgoing { bypass: false, replace: false, timeout: konst(0.0), duration: konst(1000.0), limit: None });
+    Machine::new(0, 0.0, 0, mfrac, vec![s0, s1]).expect("timed machine is valid")
+}
+
+#[derive(Clone, Copy)]
+enum TStep {
+    Ev(usize),     // a batch holding this one event (index into EV_NAMES), machine 0
+    Sleep(u64),    // milliseconds
+}
+
+fn timed_once(mfrac: f64, fb: f64, steps: &[TStep]) -> (String, String) {
+    let m = timed_machine(mfrac);
+    let mut cstr = m.serialize().into_bytes();
+    cstr.push(0);
+    let mut slot: MaybeUninit<*mut MaybenotFramework> = MaybeUninit::new(std::ptr::null_mut());
+    let rc = unsafe { maybenot_start(cstr.as_ptr().cast(), 0.0, fb, &mut slot) } as u32;
+    let inst = unsafe { slot.assume_init() };
+    let mut reference = Framework::new(vec![m], 0.0, fb, std::time::Instant::now(), ScriptRng::new(1, 0)).expect("reference framework");
+    if rc != 0 || inst.is_null() {
+        return (format!("start-rc-{rc}"), "started".into());
+    }
+    let (mut a, mut b) = (String::new(), String::new());
+    for s in steps {
+        match *s {
+            TStep::Sleep(ms) => std::thread::sleep(std::time::Duration::from_millis(ms)),
+            TStep::Ev(t) => {
+                let ev = [MaybenotEvent { event_type: ev_type(t), machine: 0 }];
+                let mut acts: [MaybeUninit<MaybenotAction>; 1] = [MaybeUninit::uninit()];
+                let mut count: usize = 0;
+                let rc = unsafe { maybenot_on_events(inst, ev.as_ptr(), 1, acts.as_mut_ptr(), &mut count) } as u32;
+                let n = reference.trigger_events(&[trigger_event(t, 0)], std::time::Instant::now()).count();
+                let _ = write!(a, "{}", if rc != 0 { "E".to_string() } else { count.to_string() });
+                let _ = write!(b, "{}", n);
+            }
+        }
+    }
+    unsafe { maybenot_stop(inst) };
+    (a, b)
+}
+
+pub fn timed(w: &mut dyn Write) {
+    use TStep::*;
+    // event indices: 0 NormalRecv, 3 NormalSent, 6 BlockingBegin, 7 BlockingEnd
+    let scenarios: Vec<(&str, f64, f64, Vec<TStep>, &str)> = vec![
+        // blocked 30 ms of 30 ms: over the limit; 90 ms later 30 of 120 ms: below it
+        ("machine-frac-recovers", 0.5, 0.0, vec![Ev(6), Sleep(30), Ev(7), Ev(3), Ev(0), Sleep(90), Ev(3)], "00001"),
+        ("framework-frac-recovers", 0.0, 0.5, vec![Ev(6), Sleep(30), Ev(7), Ev(3), Ev(0), Sleep(90), Ev(3)], "00001"),
+        // an ongoing block counts up to now: 60 ms of 60 ms
+        ("ongoing-block-counts", 0.5, 0.0, vec![Ev(6), Sleep(60), Ev(3)], "00"),
+        // nothing blocked yet, time has passed: below the limit
+        ("idle-time-allows", 0.5, 0.0, vec![Sleep(20), Ev(3)], "1"),
+        // blocked 20 of 100 ms, then a long block: 20 + 80 of 180 ms is over again
+        ("second-block-exceeds", 0.5, 0.0, vec![Ev(6), Sleep(20), Ev(7), Sleep(80), Ev(3), Ev(0), Ev(6), Sleep(80), Ev(7), Ev(3)], "0010000"),
+    ];
+    for (name, mfrac, fb, steps, expect) in scenarios {
+        let mut last = (String::new(), String::new());
+        let mut agree = false;
+        let mut tries = 0;
+        while tries < 3 {
+            tries += 1;
+            last = timed_once(mfrac, fb, &steps);
+            if last.0 == last.1 {
+                agree = true;
+                break;
+            }
+        }
+        let _ = writeln!(
+            w,
+            "timed {} {} api={} ref={} tries={} informative={}",
+            name,
+            if agree { "ok" } else { "MISMATCH" },
+            last.0,
+            last.1,
+            tries,
+            (last.1 == expect) as u8
+        );
     }
 }
